@@ -684,7 +684,7 @@ def more_contracts(T, reg, G, out, L):
 PHASES = ["queued", "running", "finished", "retried", "fault", "pause", "waiting-child", "waiting-running-child"]
 
 
-def stop_scenario(backend: str, phases, reclaim: bool, timeout=4.0):
+def stop_scenario(backend: str, phases, reclaim: bool, timeout=12.0):
     """One run of the real ThreadRunner, driven step by step: bring one invocation per entry of `phases` into that phase, optionally let the
     loop reclaim slots once more (as its next iteration would), then stop.  Returns (hung, {name: (status, owner, queued)})."""
     import threading
@@ -815,7 +815,7 @@ def stop_in_every_phase(ctx: RunCtx) -> BoundedResult:
                     continue
                 if hung:
                     key = "hang:waiting-child" if "waiting-child" in phases else "hang:" + "+".join(phases)       # (only the queued-child case is the known finding)
-                    res.failures.append({"what": f"{backend} phases={phases} reclaim={reclaim}: on_stop() did not return within 4 s (" +
+                    res.failures.append({"what": f"{backend} phases={phases} reclaim={reclaim}: on_stop() did not return within 12 s (" +
                                                  ("join of a thread that waits on a child nobody runs" if "waiting-child" in phases else "a joined thread never ends") + ")",
                                          "finding_key": key, "input": {"backend": backend, "phases": list(phases), "reclaim": reclaim}})
                 for name, (status, owner, queued) in obs.items():
